@@ -18,6 +18,9 @@
 (*  {"op":"arch","objs":[..],"seq":k,"res":{"ok":..,"reclaimed":r,..},     *)
 (*   "obs":{"objs":[{"want","pre","post","diskpre","diskpost"}..],         *)
 (*          "before":b,"after":a}}                                         *)
+(*  {"op":"new","kind":"move","n":N,"m":M,"unit":U}                        *)
+(*  {"op":"move","budget":B,"src":so,"dst":do,"len":l,"seq":k,             *)
+(*   "res":{"ok":..},"obs":{"src":[..],"dst":[..],"ragged":r}}             *)
 (*  {"op":"hang",..}                       the call never returned         *)
 (*                                                                         *)
 (* Known deviations (enabled only when listed in KnownDeviations):         *)
@@ -83,12 +86,15 @@ DevF18a(plan, segs, tn, td, size) ==
         /\ \A k \in 1..Len(plan) : MvDst(plan[k]) = d0 => MvDstOff(plan[k]) = LenOnto(plan, d0, k)
         /\ PlanOK(plan, emptied, size)
 
+\* ---- (d) move runs: `file` is <<source file, destination file>> ---------------
+MoveOut(e) == [ok |-> e.res.ok, src |-> e.obs.src, dst |-> e.obs.dst]
+
 \* ---- (c) ------------------------------------------------------------------
 ArchRes(e) == [ok |-> e.res.ok, reclaimed |-> IF e.res.ok THEN e.res.reclaimed ELSE 0]
 
 \* ---- the monitor ----------------------------------------------------------
 Stats0 == [compact_ok |-> 0, compact_refused |-> 0, moved_spans |-> 0, plans |-> 0, plans_nonempty |-> 0,
-           plan_model_agrees |-> 0, plan_chained |-> 0, arch |-> 0, arch_compacted |-> 0]
+           plan_model_agrees |-> 0, plan_chained |-> 0, arch |-> 0, arch_compacted |-> 0, moves |-> 0, moves_chunked |-> 0]
 
 TInit == l = 1 /\ kind = "none" /\ file = <<>> /\ unit = 1 /\ seq = 0 /\ viol = <<>> /\ devs = <<>> /\ stats = Stats0
 
@@ -118,6 +124,10 @@ Judge(e) ==      \* [good, dev, stats']
                                    !.plans_nonempty = @ + (IF plan # <<>> THEN 1 ELSE 0),
                                    !.plan_model_agrees = @ + (IF agrees THEN 1 ELSE 0),
                                    !.plan_chained = @ + (IF Chained(plan) THEN 1 ELSE 0)]]
+  ELSE IF e.op = "move" /\ kind = "move" THEN
+     IF IsPanic(e) THEN [good |-> FALSE, dev |-> "", st |-> stats]
+     ELSE [good |-> MoveOK(file[1], file[2], e.src, e.dst, e.len, MoveOut(e)) /\ e.obs.ragged = 0, dev |-> "",
+           st |-> [stats EXCEPT !.moves = @ + 1, !.moves_chunked = @ + (IF e.len * unit > e.bufsize THEN 1 ELSE 0)]]
   ELSE IF e.op = "arch" /\ kind = "arch" THEN
      IF IsPanic(e) THEN [good |-> FALSE, dev |-> "", st |-> stats]
      ELSE [good |-> ArchOK(e.obs.objs, ArchRes(e), e.obs.before, e.obs.after), dev |-> "",
@@ -130,8 +140,10 @@ Step ==
   /\ LET e == Rec[l] IN
      IF e.op = "new" THEN
         /\ kind' = e.kind
-        /\ file' = IF e.kind = "seg" THEN Ids(e.n) ELSE <<>>
-        /\ unit' = IF e.kind = "seg" THEN e.unit ELSE 1
+        /\ file' = CASE e.kind = "seg" -> Ids(e.n)
+                      [] e.kind = "move" -> <<Ids(e.n), [i \in 1..e.m |-> e.n + i - 1]>>
+                      [] OTHER -> <<>>
+        /\ unit' = IF e.kind \in {"seg", "move"} THEN e.unit ELSE 1
         /\ seq' = 0
         /\ UNCHANGED <<viol, devs, stats>>
      ELSE IF e.op = "hang" THEN
@@ -141,7 +153,9 @@ Step ==
         LET j == Judge(e)
             seqok == e.seq = seq + 1
             good == j.good /\ seqok
-        IN /\ file' = IF e.op = "compact" THEN e.obs.units ELSE file
+        IN /\ file' = CASE e.op = "compact" -> e.obs.units
+                         [] e.op = "move" /\ ~IsPanic(e) -> <<e.obs.src, e.obs.dst>>
+                         [] OTHER -> file
            /\ seq' = e.seq
            /\ viol' = IF good THEN viol ELSE Append(viol, l)
            /\ devs' = IF good /\ j.dev # "" THEN Append(devs, <<l, j.dev>>) ELSE devs
